@@ -64,8 +64,12 @@ ASSUMPTIONS = [
     "an exception other than TangentLinearError/NotImplementedError/"
     "VisitorError raised by PSyAD is counted as class 'crash' and not "
     "judged (the property quantifies over accepted kernels)",
-    "oracle 2 runs at PSyAD's fixed extent n=20 with gfortran's default "
-    "(repeatable) random_number sequence",
+    "oracle 2 runs at PSyAD's fixed extent n=20 on the harness's own "
+    "unseeded random_number data (its verdict may differ between runs); a "
+    "FAILED/aborting harness is first cross-checked by the exact oracle at "
+    "n=20 (probe vectors) and reported under the exact bucket if that "
+    "fails too; a harness whose inner products overflow (Infinity/NaN) is "
+    "counted as inconclusive",
 ]
 
 NSTATE_FULL = 30       # full matrices up to this state size, else probes
@@ -772,8 +776,9 @@ def run(ctx):
             return
         seen.add(ident)
         ctx.case()
-        count = ctx.evaluations
-        want_harness = count % harness_every == 0
+        # a function of the kernel (not of a counter), so that shrinking
+        # re-evaluates candidates under the same oracle selection
+        want_harness = int(ident, 16) % harness_every == 0
         case["oracle"] = "harness" if want_harness else "exact"
         res = evaluate(case, want_harness, workdir)
         status = res["status"]
